@@ -123,6 +123,7 @@ type maxInflightWrapper struct {
 	serverUnavailable uint32
 	max               int32
 	reserve           int32
+	fallback          int32
 
 	acquiredMaxInflight int32
 	overLimited         int32
@@ -186,9 +187,8 @@ func (m *maxInflightWrapper) SetLimit(acquireResult *AcquireResult) bool {
 			if inflight < localMax {
 				inflight = localMax
 			}
-			if inflight > m.max {
-				inflight = m.max
-			}
+			m.fallback = inflight
+			inflight = m.unavailableMax()
 			klog.V(2).Infof("[global maxInflight] cluster=%q resize flowcontrol=%s max=%v for error: %v",
 				m.fcc.cluster, m.fcc.name, inflight, result.Error)
 			m.FlowControl.Resize(uint32(inflight), 0)
@@ -244,7 +244,18 @@ func (m *maxInflightWrapper) Resize(max uint32, burst uint32) bool {
 	if atomic.LoadUint32(&m.serverUnavailable) == 0 {
 		return m.FlowControl.Resize(uint32(m.reserve), 0)
 	}
-	return true
+	// the fallback in force stays within the new global limit
+	return m.FlowControl.Resize(uint32(m.unavailableMax()), 0)
+}
+
+// unavailableMax is the size in force while the limiter server is unavailable:
+// what was observed when it failed (at least the local limit), bounded by the
+// current global limit. The caller holds m.lock.
+func (m *maxInflightWrapper) unavailableMax() int32 {
+	if m.fallback > m.max {
+		return m.max
+	}
+	return m.fallback
 }
 
 func (m *maxInflightWrapper) TryAcquire() bool {
@@ -317,8 +328,9 @@ type tokenBucketWrapper struct {
 	tokenBatch        int32
 	tokenInflight     int32
 
-	qps   uint32
-	burst uint32
+	qps      uint32
+	burst    uint32
+	fallback float64
 }
 
 func (m *tokenBucketWrapper) ExpectToken() int32 {
@@ -395,14 +407,8 @@ func (m *tokenBucketWrapper) SetLimit(acquireResult *AcquireResult) bool {
 			klog.V(2).Infof("[global tokenBucket] cluster=%q resize flowcontrol=%s qps=%v requestID=%v for error: %v",
 				m.fcc.cluster, m.fcc.name, lastQPS, acquireResult.requestTime, result.Error)
 
-			qps, burst := lastQPS, lastQPS
-			if qps > float64(m.qps) {
-				qps = float64(m.qps)
-			}
-			if burst > float64(m.burst) {
-				burst = float64(m.burst)
-			}
-			m.FlowControl.Resize(uint32(qps), uint32(burst))
+			m.fallback = lastQPS
+			m.FlowControl.Resize(m.unavailableLimits())
 			atomic.StoreUint32(&m.serverUnavailable, 1)
 		}
 		m.lock.Unlock()
@@ -453,7 +459,22 @@ func (m *tokenBucketWrapper) Resize(qps uint32, burst uint32) bool {
 	if atomic.LoadUint32(&m.serverUnavailable) == 0 {
 		return m.FlowControl.Resize(qps, burst)
 	}
-	return false
+	// the fallback in force stays within the new global limit
+	return m.FlowControl.Resize(m.unavailableLimits())
+}
+
+// unavailableLimits is the rate in force while the limiter server is
+// unavailable: the rate observed when it failed (at least the local qps),
+// bounded by the current global qps and burst. The caller holds m.lock.
+func (m *tokenBucketWrapper) unavailableLimits() (uint32, uint32) {
+	qps, burst := m.fallback, m.fallback
+	if qps > float64(m.qps) {
+		qps = float64(m.qps)
+	}
+	if burst > float64(m.burst) {
+		burst = float64(m.burst)
+	}
+	return uint32(qps), uint32(burst)
 }
 
 func (m *tokenBucketWrapper) TryAcquire() bool {
